@@ -341,4 +341,10 @@ theorem C10_gen : Gen.smNewRegs = [("\"CER\"", "handleCER(sm)"), ("\"DWR\"", "ha
     ("baseCERIdx", "handleCER(sm)"), ("baseDWRIdx", "handleDWR(sm)")] ∧
     Gen.cmdCapabilitiesExchange = 257 ∧ Gen.cmdDeviceWatchdog = 280 := by decide
 
+/-- the gate itself, regenerated from sm.go: `handshakeOK` is a plain function type (it has no
+    state of its own to remember an earlier connection's handshake in) and its `ServeDIAM` looks
+    the peer metadata up in the context of the connection the message came in on, every time -/
+theorem C10_gate_gen : Gen.handshakeGateType = "diam.HandlerFunc" ∧
+    Gen.handshakeGateBody = ["if _, ok := smpeer.FromContext(c.Context()); ok { f(c, m) }"] := by decide
+
 end DV.Props.C10
